@@ -1003,6 +1003,13 @@ func (c *Ctx) poolUseAfterRelease(rule string) {
 			changed = false
 			for _, b := range fn.Blocks {
 				for _, ins := range b.Instrs {
+					// a derived value spilled into a local cell (results of a function with defers): the cell holds it
+					if st, isStore := ins.(*ssa.Store); isStore && d[st.Val] {
+						if al, isAlloc := st.Addr.(*ssa.Alloc); isAlloc && !d[al] {
+							d[al] = true
+							changed = true
+						}
+					}
 					v, ok := ins.(ssa.Value)
 					if !ok || d[v] {
 						continue
@@ -1135,11 +1142,43 @@ func (c *Ctx) poolUseAfterRelease(rule string) {
 				}
 			}
 		}
-		if len(rel) == 0 {
+		// deferred releases: the object goes back to the pool when the function returns — nothing derived from it may
+		// be among the results
+		var deferred []token.Pos
+		for _, b := range fn.Blocks {
+			for _, ins := range b.Instrs {
+				df, ok := ins.(*ssa.Defer)
+				if !ok {
+					continue
+				}
+				if cal := df.Call.StaticCallee(); cal != nil {
+					if cal.String() == "(*sync.Pool).Put" && len(df.Call.Args) > 1 && d[df.Call.Args[1]] {
+						deferred = append(deferred, df.Pos())
+					}
+					if pi, isPutter := putters[cal]; isPutter && pi < len(df.Call.Args) && d[df.Call.Args[pi]] {
+						deferred = append(deferred, df.Pos())
+					}
+				}
+			}
+		}
+		if len(rel) == 0 && len(deferred) == 0 {
 			continue
 		}
 		n++
 		var bad []string
+		if len(deferred) > 0 {
+			for _, b := range fn.Blocks {
+				for _, ins := range b.Instrs {
+					if r, ok := ins.(*ssa.Return); ok {
+						for _, res := range r.Results {
+							if d[res] {
+								bad = append(bad, "returned at "+c.P.Pos(r.Pos())+" although the object is put back by the deferred call at "+c.P.Pos(deferred[0]))
+							}
+						}
+					}
+				}
+			}
+		}
 		for _, r := range rel {
 			// blocks reachable after the release
 			reach := map[*ssa.BasicBlock]bool{}
